@@ -18,6 +18,13 @@
                                        remaining assumption is that func.go's two natives agree with
                                        their transliteration, which is what C03's correspondence checks.
 
+    * `extClean_of_native_answers`   : the other oracle assumption, `ExtClean` (no closure, no empty
+                                       `[]pathValue` inside an answer), holds of every oracle whose answers
+                                       have the shape of a native's answer (JSON value, iterator, token,
+                                       error carrying those);
+    * `vm_total_wf_concrete_oracle`  : (T) for JSON inputs and variable values under these two concrete
+                                       assumptions only.
+
   Witness that the reduction is not vacuous and that the hypothesis is needed: `index_null_base_answers`
   (`null | _index(.; "a")` IS answered by a value — only the KEY matters), `getpath_prefix_ok` (a path
   whose non-null prefix succeeds still raises at the null).
@@ -136,6 +143,66 @@ theorem vm_total_wf_natives (nvars : Nat) (P : Params) (hc : safeCheckN nvars P.
     (site : Site) : (history P fuel n (initSt input vars))[k] ≠ .panic site :=
   Gojq.C08VM.vm_total_wf nvars P hc hext input vars hi hv hn
     (keysOK_of_natives_as_modelled P _ hnat) fuel n k hk hprev site
+
+
+/-! ## `ExtClean` from the SHAPE of the answers
+
+`vm_total_wf` assumes the oracle `ExtClean`: no answer contains a closure (`[2]int`) or an empty
+`[]pathValue`.  Natives return JSON values, iterators, opaque tokens, and errors that carry JSON
+values; of that shape the assumption is a theorem. -/
+
+/-- a value a native can return: a JSON value, an iterator handle, an opaque token -/
+def nativeValue : V → Bool
+  | .jv _ | .iter _ | .tok | .emptyIter => true
+  | _ => false
+
+/-- an error a native can return (an `error(v)` / `halt_error` value is a JSON value) -/
+def nativeError : VM.Err → Bool
+  | .value v | .halt v | .brk _ v => nativeValue v
+  | .tryEnd e => nativeError e
+  | _ => true
+
+def nativeAnswer (x : ExtRec) : Prop :=
+  match x.call with
+  | some (.val w) => nativeValue w = true
+  | some (.err e) => nativeError e = true
+  | _ => True
+
+theorem vpure_of_nativeValue (v : V) (h : nativeValue v = true) : vpure v = true := by
+  cases v <;> simp_all [nativeValue, vpure]
+
+theorem epure_of_nativeError : ∀ (e : VM.Err), nativeError e = true → epure e = true
+  | .value v, h => by simpa [epure] using vpure_of_nativeValue v (by simpa [nativeError] using h)
+  | .halt v, h => by simpa [epure] using vpure_of_nativeValue v (by simpa [nativeError] using h)
+  | .brk _ v, h => by simpa [epure] using vpure_of_nativeValue v (by simpa [nativeError] using h)
+  | .tryEnd e, h => by
+    simp only [epure]
+    exact epure_of_nativeError e (by simpa [nativeError] using h)
+  | .msg _, _ => by simp [epure]
+  | .vm _ _, _ => by simp [epure]
+
+/-- an oracle all of whose answers have the shape of a native's answer is clean -/
+theorem extClean_of_native_answers (ext : Nat → ExtRec) (h : ∀ k, nativeAnswer (ext k)) : ExtClean ext := by
+  intro k
+  have hk := h k
+  unfold nativeAnswer at hk
+  unfold ExtOK
+  split
+  · next w hc => simp only [hc] at hk; exact vpure_of_nativeValue w hk
+  · next e hc => simp only [hc] at hk; exact epure_of_nativeError e hk
+  · trivial
+
+/-- (T) with BOTH oracle assumptions in their concrete form: answers have the shape of a native's
+    answer, and `_index` / `getpath` answer as C03's transliteration does. -/
+theorem vm_total_wf_concrete_oracle (nvars : Nat) (P : Params) (hc : safeCheckN nvars P.code = true)
+    (hshape : ∀ k, nativeAnswer (P.ext k)) (input : JV) (vars : List JV) (hn : vars.length = nvars)
+    (hnat : NativesAsModelled P (initSt (.jv input) (vars.map .jv)))
+    (fuel n k : Nat) (hk : k < (history P fuel n (initSt (.jv input) (vars.map .jv))).length)
+    (hprev : ∀ (j : Nat) (hj : j < k),
+      Proper ((history P fuel n (initSt (.jv input) (vars.map .jv)))[j]'(Nat.lt_trans hj hk)))
+    (site : Site) : (history P fuel n (initSt (.jv input) (vars.map .jv)))[k] ≠ .panic site :=
+  vm_total_wf_natives nvars P hc (extClean_of_native_answers P.ext hshape) (.jv input) (vars.map .jv) rfl
+    (by intro v hv; obtain ⟨j, _, rfl⟩ := List.mem_map.mp hv; rfl) (by simpa using hn) hnat fuel n k hk hprev site
 
 /-! ## witnesses -/
 
